@@ -275,7 +275,11 @@ class DimArray(AbstractDimArray, OpMixin, GetSetDelAttrMixin):
             axes = dim_array.axes
 
         elif values is not None:
-            values = np.array(values, copy=copy, dtype=dtype)
+            if copy:
+                values = np.array(values, copy=True, dtype=dtype)
+            else:
+                # numpy >= 2: np.array(..., copy=False) raises when a copy is needed
+                values = np.asarray(values, dtype=dtype)
 
         #
         # Initialize the axes
